@@ -562,9 +562,9 @@ reg(
     "as printed). YQDOM(write) decides the write clause on a family: yq_runner::evaluate_yaml_direct_filtered (index, per-document cursor, the generic evaluator under "
     "YqSemantics, presentation reconciliation, anchor soundness) and yq_runner::output_value (the DOM YAML emitter; the configuration comes from OutputConfig::from_args "
     "evaluated on -o / -I) on named documents (flow, quoted, commented, anchored, block-scalar nodes) and generated streams x write programs derived from each "
-    "document's own container paths (assignment to new and existing paths, +=, *=, |=, del) x -I 2, 4, 0 (thorough 0..8): the YAML printed must load back to the value "
+    "document's own container paths (assignment to new and existing paths, +=, *=, |=, del) x -I 2, 4, 0 (both tiers): the YAML printed must load back to the value "
     "the JSON printer gives for the same run. Results that are root scalars are skipped (the documented root-scalar shortcut, a known finding of YAMLEMIT).",
-    [only_cfgs(_lazy("yamlquote", "rule_yaml_quoting"), ["cli"]), only_cfgs(_lazy("yamlemit", "rule_emit"), ["cli"]), only_cfgs(_lazy("yqdom", "rule_write"), ["cli"])],
+    [only_cfgs(_lazy("yamlquote", "rule_yaml_quoting"), ["cli"]), only_cfgs(_lazy("yamlemit", "rule_emit"), ["cli"]), only_cfgs(quick_family(_lazy("yqdom", "rule_write")), ["cli"])],
     quick=["cli"],
     technique="finite-domain evaluation of writer deciders, the reader's resolver, the streaming emitter and the yq runner's evaluate-and-print core from MIR (writer/reader agreement)",
 )
